@@ -198,9 +198,49 @@ func c15SelfInclusion(b *core.B) {
 	}
 }
 
+// c15StoredBlockInPartial: a block stored by the including template and replayed inside a
+// partial fails there: for the including template that is a failure inside the partial, at
+// the line of the partial() call - not at the line where the block was written down.
+func c15StoredBlockInPartial(b *core.B) {
+	parts := map[string]string{
+		"direct":  "<%= contentOf(\"x\") %>",
+		"inblock": "p\n<%= cap() { %>\n<%= contentOf(\"x\") %><% } %>",
+		"deeper":  "q\n<%= partial(\"direct\") %>",
+	}
+	for _, cache := range []bool{false, true} {
+		for _, pn := range []string{"direct", "inblock", "deeper"} {
+			for k := 0; k < 3; k++ {
+				text := strings.Repeat("t\n", k) + "<% contentFor(\"x\") { %>\n\n<%= nope %>\n<% } %>\n\n" + strings.Repeat("u\n", k) + "<%= partial(\"" + pn + "\") %>\n"
+				if !b.Begin(fmt.Sprintf("stored block replayed in partial %s, cache=%v, shift %d", pn, cache, k)) {
+					continue
+				}
+				b.NonTrivialStr("stored-block-in-partial", fmt.Sprint(cache, pn, k))
+				b.Count("stored-block-replayed-inside-a-partial")
+				var res R
+				func() {
+					plush.CacheEnabled = cache
+					defer func() { plush.CacheEnabled = false }()
+					ctx := c15Ctx()
+					ctx.Set("partialFeeder", func(n string) (string, error) { return parts[n], nil })
+					res = render(b, text, ctx)
+				}()
+				if res.Pan != nil {
+					continue
+				}
+				line := 6 + 2*k
+				want := fmt.Sprintf("line %d:", line)
+				if res.Err == nil || !strings.HasPrefix(res.Err.Error(), want) {
+					b.Violate(fmt.Sprintf("wrong-line|stored-block-replayed-inside-a-partial|cache=%v", cache), fmt.Sprintf("the partial tag is on line %d; got %v", line, res.Err))
+				}
+			}
+		}
+	}
+}
+
 func c15Run(b *core.B) {
 	if b.Batch == 0 {
 		c15SelfInclusion(b)
+		c15StoredBlockInPartial(b)
 	}
 	r := b.Rng(1)
 	n := 12000
